@@ -66,6 +66,17 @@ structure CellAxis where
   quotCmp : Cmp
   quotLit : Nat
   deriving DecidableEq, Repr
+/-- The cell-size arithmetic of KittyImage.Resize / Sixel.Resize: the cell geometry comes from
+    ` + "`X.vx.cellPixelSize()`" + ` and is what ` + "`resizeImage`" + ` gets (geom); ` + "`X.w = max.X / cellPixW`" + ` and
+    ` + "`X.h = max.Y / cellPixH`" + ` (quotW, quotH); ` + "`if max.X%cellPixW != 0 { X.w += 1 }`" + ` and the same for the height
+    (roundUpW, roundUpH). -/
+structure ResizeShape where
+  geom : Bool
+  quotW : Bool
+  quotH : Bool
+  roundUpW : Bool
+  roundUpH : Bool
+  deriving DecidableEq, Repr
 /-- One leading ` + "`if … { return }`" + ` of a Draw method: no encoded data yet (` + "`X.buf.Len() == 0`" + `), the encoder goroutine
     still running (` + "`atomicLoad(&X.encoding)`" + `), the size test ` + "`X.w <cw> w <conn> X.h <ch> h`" + ` against
     ` + "`w, h := win.Size()`" + `, or a condition the extractor does not know (the model then treats the method as never
@@ -705,6 +716,44 @@ func gen(c *ex.Ctx) {
 		fmt.Fprintf(&sb, "\n/-- (*Vaxis).cellPixelSize, horizontal / vertical axis. -/\ndef cellPixelSizeW : Option CellAxis := %s\ndef cellPixelSizeH : Option CellAxis := %s\n", wAx, hAx)
 	}
 
+	// ---- the cell-size arithmetic of the two Resize methods, structured (interpreted by Model/ImageTerm.lean)
+	{
+		b := func(x bool) string {
+			if x {
+				return "true"
+			}
+			return "false"
+		}
+		shape := func(l []ast.Stmt, recv string) string {
+			var geom1, geom2, qw, qh, uw, uh bool
+			for _, st := range l {
+				switch t := src(c, st); {
+				case t == "cellPixW, cellPixH := "+recv+".vx.cellPixelSize()":
+					geom1 = true
+				case t == "img := resizeImage("+recv+".img, w, h, cellPixW, cellPixH)":
+					geom2 = true
+				case t == recv+".w = max.X / cellPixW":
+					qw = true
+				case t == recv+".h = max.Y / cellPixH":
+					qh = true
+				case roundUpIf(c, st, "max.X", "cellPixW", recv+".w"):
+					uw = true
+				case roundUpIf(c, st, "max.Y", "cellPixH", recv+".h"):
+					uh = true
+				}
+			}
+			return fmt.Sprintf("⟨%s, %s, %s, %s, %s⟩", b(geom1 && geom2), b(qw), b(qh), b(uw), b(uh))
+		}
+		var kl, sl []ast.Stmt
+		if fd := ex.FindFunc(f, "KittyImage", "Resize"); fd != nil && fd.Body != nil {
+			kl = fd.Body.List
+		}
+		if fd := ex.FindFunc(f, "Sixel", "Resize"); fd != nil && fd.Body != nil {
+			sl = goFuncBody(fd.Body.List)
+		}
+		fmt.Fprintf(&sb, "\n/-- the cell-size arithmetic of KittyImage.Resize / of Sixel.Resize (inside its goroutine). -/\ndef kittyResize : ResizeShape := %s\ndef sixelResize : ResizeShape := %s\n", shape(kl, "k"), shape(sl, "s"))
+	}
+
 	// ---- the gates of KittyImage.Draw / Sixel.Draw, structured (interpreted by Model/ImageDraw.lean)
 	for _, d := range [][3]string{{"KittyImage", "k", "kittyGates"}, {"Sixel", "s", "sixelGates"}} {
 		fmt.Fprintf(&sb, "\n/-- the leading `if … { return }` statements of %s.Draw, in source order. -/\ndef %s : List Gate := [%s]\n",
@@ -923,12 +972,9 @@ func genFlow(c *ex.Ctx, f *ast.File) {
 	}
 	// ((*Vaxis).cellPixelSize is structured data in ImageConsts.lean: cellPixelSizeW / cellPixelSizeH)
 	kr := body("KittyImage", "Resize")
-	emit("kittyResizeCell", "KittyImage.Resize: where the cell pixel size comes from and how k.w / k.h are computed",
-		keep(stmtTexts(c, kr), "cellPix", "k.w", "k.h"))
 	emit("kittyResizeUpload", "KittyImage.Resize, the goroutine: every statement that touches k.uploaded or k.buf",
 		keep(stmtTexts(c, goFuncBody(kr)), "k.uploaded", "k.buf"))
-	sr := goFuncBody(body("Sixel", "Resize"))
-	emit("sixelResizeCell", "Sixel.Resize (goroutine): cell pixel size, s.w / s.h", keep(stmtTexts(c, sr), "cellPix", "s.w", "s.h"))
+	// (the cell-size arithmetic of both Resize methods is structured data in ImageConsts.lean: kittyResize / sixelResize)
 	kd := body("KittyImage", "Draw")
 	emit("kittyWriteFunc", "KittyImage.Draw: the writeTo closure of the placement", stmtTexts(c, closureBody(kd, "writeFunc")))
 	// (the gates of both Draw methods are structured data in ImageConsts.lean: kittyGates / sixelGates)
